@@ -27,7 +27,12 @@
 // white space, so edits that do not touch a blocking site leave the output
 // unchanged.
 //
-// functions.txt: one "file Receiver.Function [+calls]" per line; with +calls
+// Also listed, in every function: panic(...) calls (PanicOnErr when the
+// argument mentions an error value); and with the flag +returns the returns
+// of a non-nil last result (used for functions that must not fail because of
+// a shutdown: a caller turns their error into a panic).
+//
+// functions.txt: one "file Receiver.Function [+calls] [+returns]" per line; with +calls
 // the X.Stop() calls and close(ch) of that function are listed as well (used
 // for the Stop functions, whose order of calls the model's stop order is tied
 // to).
@@ -219,6 +224,8 @@ type walker struct {
 	timers map[string]string      // local name -> text of the timer expression it was assigned
 	made   map[*ast.CallExpr]bool // make(chan ...) calls already listed with their name
 	calls  bool                   // also list X.Stop() calls and close(ch) (the "+calls" flag)
+	rets   bool                   // also list the returns of a non-nil error (the "+returns" flag)
+	depth  int                    // nesting in function literals (returns are listed at depth 0 only)
 	out    []site
 }
 
@@ -324,8 +331,23 @@ func (w *walker) walk(n ast.Node, ctx []string) {
 	switch x := n.(type) {
 	case *ast.FuncLit:
 		w.declareFields(x.Type.Params)
+		w.depth++
 		w.walk(x.Body, append(append([]string{}, ctx...), "func"))
+		w.depth--
 		return
+	case *ast.ReturnStmt:
+		// +returns: a return whose last result is not the literal nil (the
+		// function's error result); function literals have their own results
+		if w.rets && w.depth == 0 && len(x.Results) > 0 {
+			last := w.p.text(x.Results[len(x.Results)-1])
+			if last != "nil" {
+				for _, r := range x.Results {
+					w.walk(r, ctx)
+				}
+				w.add(ctx, "ErrReturn", []alt{{kind: "WaitOn", text: last}})
+				return
+			}
+		}
 	case *ast.GoStmt:
 		w.walkCall(x.Call, ctx, "go")
 		return
@@ -425,6 +447,30 @@ func (w *walker) walk(n ast.Node, ctx []string) {
 				return
 			}
 		}
+		if f, ok := x.Fun.(*ast.Ident); ok && f.Name == "panic" && len(x.Args) == 1 {
+			// panic(...) whose argument mentions an error value: an error
+			// return of a callee (a shutdown error, say) kills the process
+			// (the site names the error identifiers only, not the message)
+			k := "Panic"
+			seen := map[string]bool{}
+			var errs []string
+			ast.Inspect(x.Args[0], func(n ast.Node) bool {
+				if id, ok := n.(*ast.Ident); ok {
+					ln := strings.ToLower(id.Name)
+					if ln == "err" || strings.HasSuffix(ln, "err") || strings.HasPrefix(id.Name, "Err") {
+						k = "PanicOnErr"
+						if !seen[id.Name] {
+							seen[id.Name] = true
+							errs = append(errs, id.Name)
+						}
+					}
+				}
+				return true
+			})
+			sort.Strings(errs)
+			w.add(ctx, k, []alt{{kind: "WaitOn", text: strings.Join(errs, ",")}})
+			return
+		}
 		if f, ok := x.Fun.(*ast.Ident); ok && f.Name == "close" && len(x.Args) == 1 && w.calls {
 			w.add(ctx, "CloseChan", []alt{{kind: "WaitOn", text: w.p.text(x.Args[0])}})
 			return
@@ -514,7 +560,9 @@ func (w *walker) walkCall(c *ast.CallExpr, ctx []string, tag string) {
 	}
 	if fl, ok := c.Fun.(*ast.FuncLit); ok {
 		w.declareFields(fl.Type.Params)
+		w.depth++
 		w.walk(fl.Body, append(append([]string{}, ctx...), tag))
+		w.depth--
 		return
 	}
 	// go x.method() / defer wg.Wait(): the call itself is a site only when
@@ -559,8 +607,8 @@ func funcID(file string, fd *ast.FuncDecl) string {
 	return name
 }
 
-func sitesOf(p *pkgInfo, file string, fd *ast.FuncDecl, calls bool) []site {
-	w := &walker{p: p, fn: file + ":" + funcID(file, fd), locals: map[string]int{}, timers: map[string]string{}, made: map[*ast.CallExpr]bool{}, calls: calls}
+func sitesOf(p *pkgInfo, file string, fd *ast.FuncDecl, calls, rets bool) []site {
+	w := &walker{p: p, fn: file + ":" + funcID(file, fd), locals: map[string]int{}, timers: map[string]string{}, made: map[*ast.CallExpr]bool{}, calls: calls, rets: rets}
 	w.declareFields(fd.Recv)
 	w.declareFields(fd.Type.Params)
 	w.declareFields(fd.Type.Results)
@@ -637,7 +685,7 @@ func main() {
 			}
 			sort.Strings(names)
 			for _, n := range names {
-				for _, s := range sitesOf(pkgOf(file), file, m[n], false) {
+				for _, s := range sitesOf(pkgOf(file), file, m[n], false, false) {
 					fmt.Println(s.coq())
 				}
 			}
@@ -656,10 +704,18 @@ func main() {
 		if len(fs) == 0 {
 			continue
 		}
-		calls := false
-		if len(fs) == 3 && fs[2] == "+calls" {
-			calls = true
-			fs = fs[:2]
+		calls, rets := false, false
+		for len(fs) > 2 {
+			switch fs[len(fs)-1] {
+			case "+calls":
+				calls = true
+			case "+returns":
+				rets = true
+			default:
+				fmt.Fprintf(os.Stderr, "genwaitsites: bad flag in functions.txt: %q\n", line)
+				os.Exit(1)
+			}
+			fs = fs[:len(fs)-1]
 		}
 		if len(fs) != 2 {
 			fmt.Fprintf(os.Stderr, "genwaitsites: bad line in functions.txt: %q\n", line)
@@ -675,7 +731,7 @@ func main() {
 			out = append(out, fmt.Sprintf("mkG %s 0 \"\" MissingFunction []", coqStr(file+":"+name)))
 			continue
 		}
-		for _, s := range sitesOf(pkgOf(file), file, fd, calls) {
+		for _, s := range sitesOf(pkgOf(file), file, fd, calls, rets) {
 			out = append(out, s.coq())
 		}
 	}
